@@ -1149,7 +1149,9 @@ class TrC:
                         raise Unsupported("except %s" % ast.unparse(ty))
                 self.env = {k: v.copy() for k, v in saved_env.items()}
                 body = self.block(h.body, t.after, t.lc)
-                test = " || ".join("exn_is_a e %s" % c for c in classes)
+                test = "exn_is_a e %s" % classes[-1]
+                for c in reversed(classes[:-1]):
+                    test = "orb (exn_is_a e %s) (%s)" % (c, test)
                 out = "if %s then %s\n     else %s" % (test, body, out)
             return "(fun e => %s)" % out
         finally:
